@@ -42,12 +42,26 @@ func runC24(k *eng.Check, tier string) {
 // (2) validateWorkingSetForCommit
 
 func c24sessionVarCmp(k *eng.Check, fn *ssa.Function, constName string) (set, unset *eng.Set, n int) {
+	return c24sessionVarsCmp(k, fn, constName)
+}
+
+// c24sessionVarsCmp: the edges on which one of the named session variables is known to be 1 (set) / on which all
+// the tested ones are known not to be 1 (unset), and the number of `var == 1` tests found.  A test may be an If
+// condition or an operand of a boolean `a || b` value that is branched on later (a named boolean).
+func c24sessionVarsCmp(k *eng.Check, fn *ssa.Function, constNames ...string) (set, unset *eng.Set, n int) {
 	set, unset = eng.NewSet(), eng.NewSet()
-	var want string
-	for _, cd := range k.C.PackageConsts(c23Dsess, "", func(n string) bool { return n == constName }) {
-		want = cd.Value
+	want := map[string]bool{}
+	for _, cd := range k.C.PackageConsts(c23Dsess, "", func(n string) bool {
+		for _, c := range constNames {
+			if n == c {
+				return true
+			}
+		}
+		return false
+	}) {
+		want[cd.Value] = true
 	}
-	if want == "" {
+	if len(want) == 0 {
 		return
 	}
 	isVar := func(v ssa.Value) bool {
@@ -57,17 +71,18 @@ func c24sessionVarCmp(k *eng.Check, fn *ssa.Function, constName string) (set, un
 				return false
 			}
 			for _, a := range call.Call.Args {
-				if cst, ok := c23strip(a).(*ssa.Const); ok && cst.Value != nil && cst.Value.ExactString() == want {
+				if cst, ok := c23strip(a).(*ssa.Const); ok && cst.Value != nil && want[cst.Value.ExactString()] {
 					return true
 				}
 			}
 			return false
 		})
 	}
-	for _, iff := range c23ifs(fn) {
-		bo, ok := c23strip(iff.Cond).(*ssa.BinOp)
-		if !ok || (bo.Op != token.EQL && bo.Op != token.NEQ) {
-			continue
+	// isTest: v is `var == 1` (eq) or `var != 1` (!eq)
+	isTest := func(v ssa.Value) (eq, ok bool) {
+		bo, isB := c23strip(v).(*ssa.BinOp)
+		if !isB || (bo.Op != token.EQL && bo.Op != token.NEQ) {
+			return false, false
 		}
 		x, y := bo.X, bo.Y
 		if _, isC := c23strip(x).(*ssa.Const); isC {
@@ -75,11 +90,56 @@ func c24sessionVarCmp(k *eng.Check, fn *ssa.Function, constName string) (set, un
 		}
 		cst, isC := c23strip(y).(*ssa.Const)
 		if !isC || cst.Value == nil || cst.Value.ExactString() != "1" || !isVar(x) {
+			return false, false
+		}
+		return bo.Op == token.EQL, true
+	}
+	for _, iff := range c23ifs(fn) {
+		if eq, ok := isTest(iff.Cond); ok {
+			n++
+			set.AddE(c23edge(iff, eq))
+			unset.AddE(c23edge(iff, !eq))
 			continue
 		}
-		n++
-		set.AddE(c23edge(iff, bo.Op == token.EQL))
-		unset.AddE(c23edge(iff, bo.Op != token.EQL))
+		// `named := a == 1 || b == 1; if named`: a boolean phi whose operands are constants contributed by
+		// short-circuit edges of such tests, or such tests themselves
+		phi, isPhi := c23strip(iff.Cond).(*ssa.Phi)
+		if !isPhi {
+			continue
+		}
+		okAll, tests := true, 0
+		for i, e := range phi.Edges {
+			pred := phi.Block().Preds[i]
+			if cst, isC := e.(*ssa.Const); isC && cst.Value != nil {
+				if cst.Value.ExactString() == "false" {
+					continue
+				}
+				// constant true must come from the "is 1" edge of a test in the predecessor
+				if pif, isIf := pred.Instrs[len(pred.Instrs)-1].(*ssa.If); isIf {
+					if eq, isT := isTest(pif.Cond); isT && c23edge(pif, eq).To() == phi.Block() {
+						tests++
+						continue
+					}
+				}
+				okAll = false
+				continue
+			}
+			if eq, isT := isTest(e); isT && eq {
+				tests++
+				continue
+			}
+			okAll = false
+		}
+		// tests of the wanted variables are counted even when the boolean also depends on something else;
+		// its edges are used only when it depends on nothing else
+		n += tests
+		if !okAll {
+			continue
+		}
+		if tests > 0 {
+			set.AddE(c23edge(iff, true))
+			unset.AddE(c23edge(iff, false))
+		}
 	}
 	return
 }
@@ -157,7 +217,8 @@ func c24gate(k *eng.Check) {
 		}
 	}
 	forceSet, _, nForce := c24sessionVarCmp(k, fn, "ForceTransactionCommit")
-	allowSet, _, nAllow := c24sessionVarCmp(k, fn, "AllowCommitConflicts")
+	_, _, nAllow := c24sessionVarCmp(k, fn, "AllowCommitConflicts")
+	allowOrForce, _, _ := c24sessionVarsCmp(k, fn, "AllowCommitConflicts", "ForceTransactionCommit")
 	if cvTrue.Len() < 1 || nData < 1 || nSchema < 1 || nForce < 2 || nAllow < 1 || ffTrue.Len() < 1 {
 		k.Unknown("gate-shape", eng.Name(fn), "branches on the constraint-violation verdict, the data and schema conflict verdicts, the fast-forward flag, and the force (2) / allow (1) session variables",
 			fmt.Sprintf("found cv=%d data=%d schema=%d force=%d allow=%d ff=%d", cvTrue.Len(), nData, nSchema, nForce, nAllow, ffTrue.Len()))
@@ -166,7 +227,7 @@ func c24gate(k *eng.Check) {
 	exits := eng.C23SuccessExits(fn)
 	k.OnlyAfter("violations-need-force", fn, "once constraint violations were found, nil is returned only through the dolt_force_transaction_commit=1 edge", exits, 1, forceSet, c23starts(cvTrue)...)
 	k.OnlyAfter("conflicts-need-ff", fn, "once data or schema conflicts were found, nil is returned only on the fast-forward edge (conflicts produced by the transaction merge always roll back)", exits, 1, ffTrue, c23starts(confTrue)...)
-	k.OnlyAfter("conflicts-need-allow", fn, "once data or schema conflicts were found, nil is returned only through dolt_allow_commit_conflicts=1 or dolt_force_transaction_commit=1", exits, 1, eng.UnionOf(allowSet, forceSet), c23starts(confTrue)...)
+	k.OnlyAfter("conflicts-need-allow", fn, "once data or schema conflicts were found, nil is returned only through dolt_allow_commit_conflicts=1 or dolt_force_transaction_commit=1", exits, 1, allowOrForce, c23starts(confTrue)...)
 	// the verdict calls themselves are error-checked before the nil return
 	k.OnlyAfter("gate-verdicts-checked", fn, "nil is returned only after HasConstraintViolations succeeded", exits, 1, k.OkCalls(fn, "hascv", mHasCV))
 	k.OnlyAfter("gate-verdicts-checked", fn, "nil is returned only after HasConflicts succeeded", exits, 1, k.OkCalls(fn, "hasconf", mHasConf))
